@@ -117,7 +117,7 @@ Mw ==
            mb == BookRec(upd, s.clock)
            ord1 == IF newlyRemoved THEN VoidAll(s.ord) ELSE s.ord
            active == \E o \in DOMAIN s.ord : s.ord[o].inbl
-           ord2 == IF active /\ ~upd.removed
+           ord2 == IF active
                    THEN MwAll(ord1, Mid, TRUE, (Sel :> upd.delta), mb, s.clock, (Client :> 1000))
                    ELSE ord1
            mk == [InitMkt EXCEPT !.status = upd.status, !.version = upd.version, !.pt = s.clock,
